@@ -127,7 +127,7 @@ func (ra *RestAgent) receiveBundleMessage(msg BundleMessage) {
 		if bagHasEndpoint(msg.Recipients(), v.(bpv7.EndpointID)) {
 			uuids = append(uuids, k.(string))
 		}
-		return false // multiple clients might be registered for some endpoint
+		return true // multiple clients might be registered for some endpoint
 	})
 
 	for _, uuid := range uuids {
@@ -276,7 +276,7 @@ func (ra *RestAgent) handleBuild(w http.ResponseWriter, r *http.Request) {
 func (ra *RestAgent) Endpoints() (eids []bpv7.EndpointID) {
 	ra.clients.Range(func(_, v interface{}) bool {
 		eids = append(eids, v.(bpv7.EndpointID))
-		return false
+		return true
 	})
 	return
 }
